@@ -8,12 +8,28 @@ from . import conv2
 LADDERS = [("crate::fields::FieldElement::pow", "one", "squared", "mul_assign")]
 
 
+def ladders(repo):
+    """the generic exponentiation, wherever the maintainer keeps it: by default the provided method of the field trait; if that is
+    gone, the `pow` that the public `Gt::pow` forwards to (an extension trait with a blanket impl, a free function, …)"""
+    F = repo.F
+    if LADDERS[0][0] in F.bodies:
+        return LADDERS
+    w = F.bodies.get("crate::Gt::pow")
+    cands = []
+    for _, t in (w.calls() if w is not None else []):
+        fn = t.get("fn") or {}
+        for d in (fn.get("res_def"), fn.get("def")):
+            if d in F.bodies and fn.get("name") == "pow" and d not in cands:
+                cands.append(d)
+    return [(cands[0],) + LADDERS[0][1:]] if len(cands) == 1 else LADDERS
+
+
 def run(ctx):
     repo = Repo(ctx.dev)
     closed, prim, r_step = shared.classify_u256(repo)
     rules = [consts.rule_const("C06", repo), shared.rule_guard(repo), field.rule_guard_extra("C06", repo), r_step, field.rule_inv_none("C06", repo), field.rule_limb_predicates("C06", repo),
              field.rule_ops_forward("C06", repo, ["crate::fields::fp::Fr", "crate::fields::fp::Fq", "crate::Fr", "crate::Fq"]),
-             ladder.rule_ladder("C06", repo, LADDERS), field.rule_bits("C06", repo), rule_canon_conv(repo), conv2.rule_scalar_encoders("C06", repo, conv2.make_conv(repo))]
+             ladder.rule_ladder("C06", repo, ladders(repo)), field.rule_bits("C06", repo), rule_canon_conv(repo), conv2.rule_scalar_encoders("C06", repo, conv2.make_conv(repo))]
     return report.emit(
         "C06", ctx.tier, ctx.seed, rules, ctx.started,
         "Montgomery constants (R, R², −p⁻¹) by defining relation and paired with their own type at every modular call site; truth tables of every modulus-boundary comparison over the "
